@@ -28,7 +28,9 @@ def K : PCtx :=
     loc := fun n => if n = "g" then some 2 else none,
     consts := [],
     nlocals := 0,
-    link := 0 }
+    hi := fun _ => 0,
+    gnames := [],
+    dep := 0 }
 
 theorem lookup_g (n : String) (s : Symbol) (h : tbl.lookup "main" n = .ok s) : n = "g" ∧ s = sym := by
   unfold SymTab.lookup tbl at h
@@ -139,17 +141,20 @@ theorem rep : Rep K σ mem where
     rcases hv with ⟨o, h⟩ | ⟨_, h⟩
     · simp [σ] at h
     · by_cases hn : n = "g"
-      · subst hn; exact ⟨2, by simp [K]⟩
+      · subst hn; exact ⟨2, by simp [K], by decide⟩
       · exfalso
         simp only [K, List.lookup] at h
         have : (n == "g") = false := by simpa using hn
         rw [this] at h
         simp at h
-  link := by
+  above := by
+    intro a ha
+    have : 100 ≤ a := by rw [S_zero] at ha; exact ha
     unfold mem
-    rw [S_zero]
-    rw [Mem.read_write_other _ _ _ _ (by decide), Mem.read_write_other _ _ _ _ (by decide)]
+    rw [Mem.read_write_other _ _ _ _ (by omega), Mem.read_write_other _ _ _ _ (by omega)]
     exact Mem.read_zero _
+  gvis := by intro n hn; simp [K] at hn
+  depth := rfl
 
 /-- `g := g + 1`. -/
 def stmt : X.Stmt := .assign "g" (.bin .plus (.name "g") (.num 1))
